@@ -298,6 +298,26 @@ class Lin:
             q = ref.qual
             if q in ("autograd.builtins.list", "autograd.builtins.tuple", "autograd.builtins.dict"):
                 return join(*args) if args else "Z"
+            if q == "functools.reduce" and 2 <= len(t.args) <= 3 and not t.kw and not t.get("dstar"):
+                # reduce(F, S[, init]): the left fold acc = F(acc, e) over the elements of S, to a fixpoint of the
+                # two-point domain (sum(S) written with operator.add)
+                from ..terms import T
+
+                F, S = t.args[0], t.args[1]
+                el_v = self.of(S)
+                acc_v = self.of(t.args[2]) if len(t.args) == 3 else el_v
+                for it_ in range(4):
+                    acc_s, el_s = T("sym", t.node, t.mod, name="acc", role="fold"), T("sym", t.node, t.mod, name="e", role="fold")
+                    self.memo[id(acc_s)] = (acc_s, acc_v)
+                    self.memo[id(el_s)] = (el_s, el_v)
+                    # (first step on the initial value itself: adding to a literal zero is not an affine shift)
+                    first = t.args[2] if (it_ == 0 and len(t.args) == 3) else acc_s
+                    nxt = self.of(T("call", t.node, t.mod, fn=F, args=[first, el_s], kw={}, dstar=[]))
+                    new = join(acc_v, nxt)
+                    if new == acc_v:
+                        break
+                    acc_v = new
+                return acc_v
             if q.startswith("builtins."):
                 b = q[9:]
                 if b in STRUCT_BUILTINS:
@@ -387,6 +407,18 @@ def _is_seq(t):
         return True
     if t.op == "bin" and t.opname == "Add":
         return _is_seq(t.l) or _is_seq(t.r)
+    if t.op == "if":
+        # head = (g,); if c: head = head + (w,)  - a sequence on every branch that is not a raise
+        arms = [a for a in (t.then, t.other) if a.op != "raise"]
+        return bool(arms) and all(_is_seq(a) for a in arms)
+    if t.op == "seq":
+        return _is_seq(t.value)
+    if t.op in ("comp", "grow"):
+        return t.op == "comp" or _is_seq(t.obj)
+    if t.op == "loopvar":
+        return t.get("init") is not None and _is_seq(t.init)
+    if t.op == "loop":
+        return t.get("init") is not None and _is_seq(t.init)
     return False
 
 
